@@ -9,6 +9,14 @@ import io
 import os as _real_os
 
 
+def _io_error(fault, path):
+    """The injected I/O error: an OSError with an errno, or (fault == -1) one without - as raised e.g. by wrappers
+    around the OS call ('OSError("short write")')."""
+    if fault == -1:
+        return OSError("simulated I/O error without errno on %s" % _real_os.path.basename(path))
+    return OSError(fault, _real_os.strerror(fault), path)
+
+
 class SimFile:
 
     def __init__(self, fs, path, mode):
@@ -32,7 +40,7 @@ class SimFile:
             cut = len(s) // 2
             fs.files[self.path] = fs.files.get(self.path, "") + s[:cut]
             fs.note_change(self.path)
-            raise OSError(fault, _real_os.strerror(fault), self.path)
+            raise _io_error(fault, self.path)
         if fs.crash_mid_write is not None and fs.crash_mid_write():
             cut = fs.ch.randint("crash_cut", 0, len(s))
             fs.files[self.path] = fs.files.get(self.path, "") + s[:cut]
@@ -113,7 +121,7 @@ class SimFS:
             self.op("open_w", path)
             fault = self.take_fault("open_w")
             if fault:
-                raise OSError(fault, _real_os.strerror(fault), path)
+                raise _io_error(fault, path)
             self.files[path] = ""
             self.note_change(path)
             f = SimFile(self, path, mode)
@@ -131,7 +139,7 @@ class SimFS:
         self.op("replace", dst)
         fault = self.take_fault("replace")
         if fault:
-            raise OSError(fault, _real_os.strerror(fault), src)
+            raise _io_error(fault, src)
         if src not in self.files:
             raise FileNotFoundError(errno.ENOENT, "No such file", src)
         self.files[dst] = self.files.pop(src)
